@@ -61,6 +61,9 @@ CHECKS = {
     'C20': dict(cat='model_checking', tech='TLA+ Pairs.tla table of duplicated rules with relations (SameStatus / FindingIff / ErrorImpliesFinding) checked by TLC; both members of every pair run on mirrored content (SAN<->IAN, subject<->issuer, planted vocabulary, validity and length boundaries), validated by Trace_Pairs',
                 text='The pair table is the specification; same content is planted by construction and every certificate on which both members ran is judged against the pair relation.',
                 note='"both ran" = both results are pass or a finding', ref='5 C20'),
+    'C10': dict(cat='model_checking', tech='TLA+ Concurrent.tla (goroutines x RWMutex-guarded lookups x private-until-returned Filter): TLC exhaustive over interleavings incl. counter-models (M); TLC-exported pre-emption-bounded schedules enforced on real goroutines through the verif gate hook (G); gated and free-running (-race, GOMAXPROCS varied) executions validated by Trace_Concurrent, which steps Concurrent!StepG (V)',
+                text='Every interleaving of bounded programs (Lint, Names, lookups, listing, Filter with hand-over of the filtered registry) is model-checked for conflicting access, lock sanity, linearizability and deadlock, with three counter-models that must fail; the schedules of the model are replayed on the real code through gates at lock-free points, and free-running goroutines are run under the race detector with the concurrent phase first in the process; every recorded reply must be the model\'s sequential reply / the same call made alone, and race reports, panics and hangs have no step in the specification.',
+                note='race detector and goroutine ids from runtime.Stack trusted; an unreproduced rejection is inconclusive (exit 2), a race report with zlint frames is a violation by itself', ref='5 C10'),
 }
 
 
